@@ -304,6 +304,12 @@ class Exec:
             cur = sub
         return acc
 
+    def ev_NamedExpr(self, node, st):
+        # (name := value): bind in the current state, the expression's value is the bound value
+        v = self.ev(node.value, st)
+        self.assign_to(node.target, v, st)
+        return st.env[node.target.id] if isinstance(node.target, ast.Name) else v
+
     def ev_IfExp(self, node, st):
         c = truthy(self.ev(node.test, st))
         s1 = st.copy().assume(c)
